@@ -1121,7 +1121,7 @@ func (g *fgen) messageBody(fq string, depth int, isGroup bool) {
 			g.end()
 		case k == 16:
 			g.optionStmt("m", msgStdOpts, used)
-		case k == 17 && g.syntax != "proto3" && hasExtRange && depth < 2:
+		case (k == 17 || k == 19) && g.syntax != "proto3" && hasExtRange && depth < 2:
 			g.extend(len(g.extendable) - 1)
 		case k == 18:
 			g.emptyStmts("member", 100)
